@@ -26,6 +26,8 @@ OBLIGATIONS = [
   O('C06.c-polygon-rules-reversed-4', 'off_dispatch.cpp', 'harness_dispatch_rules', defs=['LEN1=4', 'REVERSED'], replace=OFFW, unwind=8, tiers='t', bound='one negatively oriented quadrilateral', desc='as above'),
   O('C06.c-orientation-bookkeeping', 'off_dispatch.cpp', 'harness_groups_independent', defs=['LEN0=3'], replace=BOTH, unwind=8, bound='two groups (triangle, triangle), all deltas / join / end types / flags', desc='signed delta reaches the Polygon worker; union = Positive fill, ReverseSolution and PreserveCollinear forwarded'),
   O('C06.b-miter-limit-in-force', 'off_dispatch.cpp', 'harness_miter_limit_in_force', replace=BOTH, unwind=8, flags=['--slice-formula'], timeout=600, bound='miter limits from {0.5,1,1.5,2,4,10} at construction and set twice through MiterLimit(); three Executes (paths, paths, tree) on one object; all deltas', desc='the miter/square threshold (2/limit^2, 2 for limits <= 1) used during an Execute is that of the limit in force at that call'),
+  O('C06.a-bevel-join-points', 'off_dispatch.cpp', 'harness_join_geometry', defs=['JGEOM=0'], unwind=8, flags=['--slice-formula'], backend=['sat', 'cadical', 'kissat'], timeout=600, bound='normals from 8 exact directions, delta in 5*{1,-1,2,25,-200,100000}', desc='bevel join: exactly the points vertex + delta*normal of the two edges (integer oracle)'),
+  O('C06.a-miter-point-on-both-offset-lines', 'off_dispatch.cpp', 'harness_join_geometry', defs=['JGEOM=2'], unwind=8, flags=['--slice-formula'], backend=['sat', 'cadical', 'kissat'], timeout=900, bound='as above, all non-reversing pairs of directions', desc='miter join: the point lies on both offset lines, (p-v).n = delta for both normals up to the integer rounding of p (integer oracle)'),
   O('C06.d-tiny-delta', 'off_dispatch.cpp', 'harness_tiny_delta', replace=BOTH, unwind=8, bound='|delta| < 0.5, all join/end types', desc='no offsetting worker runs; the input paths go to the union unchanged'),
   O('C06.c-polygon-rules-4', 'off_dispatch.cpp', 'harness_dispatch_rules', defs=['LEN1=4'], replace=OFFW, unwind=8, bound='one 4-point polygon, all deltas', desc='Polygon end type: OffsetPolygon with group delta == delta'),
 ]
